@@ -1,5 +1,5 @@
 """C12 — no call panics, hangs or wedges the filesystem.
-Decided: NO-PANIC-UNDER-GUARD (the lock cannot be poisoned), UNIT (byte vs char offsets, crate-wide), ARITH (handle arithmetic).
+Decided: NO-PANIC-UNDER-GUARD (the lock cannot be poisoned), LOCK-NEST (no self-deadlock), UNIT (byte vs char offsets, crate-wide), ARITH (handle arithmetic).
 Not decided: termination; panic-freedom of arbitrary value computations outside these rules (inventory in evidence only)."""
 import engine, locks, panics
 
@@ -8,13 +8,18 @@ EXPLANATION = (
     "execute while a Memfs guard is held — in the owning body or transitively in any callee, dynamic target or destructor — is discharged by a "
     "dominating-guard idiom or excused by one table line stating its invariant, so a panic cannot poison the only lock and wedge the instance; "
     "(2) crate-wide, no string slice uses a character count as a byte offset (the multi-byte panic class of the public path/string helpers); "
-    "(3) the handle type's position arithmetic is guarded. NOT decided: termination ('bounded time'), and absence of panics in value computations "
+    "(3) the handle type's position arithmetic is guarded; (4) no call, destructor or dynamic target executed while a guard is live can acquire the lock "
+    "again (LOCK-NEST with FS-NONE, shared with C04): no Memfs call can hang on its own guard. NOT decided: termination ('bounded time'), and absence of panics in value computations "
     "outside those rules — the remaining potential panic sites of the public helpers are listed in the evidence as an inventory, not a verdict.")
 
 
 def run(rep, F, ctx):
     A = locks.LockAnalysis(F)
     reach = panics.no_panic_under_guard(rep, F, A)
+    # "hangs": a call that re-acquires the single lock while it holds a guard never returns (shared with C04)
+    import p_C04
+    p_C04.fs_none(rep, A)
+    p_C04.lock_nest(rep, F, A)
     panics.unit(rep, F, A.cg)
     panics.arith(rep, F, A.cg)
     # inventory (evidence only) of potential panic sites in public helpers outside the armed regions
